@@ -21,6 +21,50 @@ theorem render_eq_subst (amb : Ambient) : ∀ (ps : List Piece) (as : List Arg) 
     | none => simp [hc] at h1
     | some t => simp [renderPieces, subst, hc, render_eq_subst amb ps as (k + 1) h2]
 
+/-! ### whether arguments fit a format depends on their kinds only -/
+
+inductive Kind | str | chr | int | real
+  deriving Repr, DecidableEq
+
+def Arg.kind : Arg → Kind
+  | .str _ => .str | .chr _ => .chr | .int _ => .int | .real _ => .real
+
+/-- does a conversion accept an argument of that kind (mirror of `convArg … |>.isSome`) -/
+def convOK : Conv → Kind → Bool
+  | .s, .str => true
+  | .ch, .chr => true | .ch, .int => true
+  | .d, .int => true | .d, .chr => true
+  | .x, .int => true | .x, .chr => true
+  | .f, .real => true
+  | _, _ => false
+
+def kindFits : List Piece → List Kind → Bool
+  | [], [] => true
+  | [], _ :: _ => true
+  | .lit _ :: ps, ks => kindFits ps ks
+  | .bad :: _, _ => false
+  | .conv _ :: _, [] => false
+  | .conv c :: ps, k :: ks => convOK c k && kindFits ps ks
+
+theorem convArg_isSome (c : Conv) (a : Arg) : (convArg c a).isSome = convOK c a.kind := by
+  cases c <;> cases a <;> rfl
+
+theorem fits_eq_kindFits : ∀ (ps : List Piece) (as : List Arg), fits ps as = kindFits ps (as.map Arg.kind)
+  | [], [] => rfl
+  | [], _ :: _ => rfl
+  | .lit _ :: ps, as => by simp only [fits, kindFits]; exact fits_eq_kindFits ps as
+  | .bad :: _, _ => rfl
+  | .conv _ :: _, [] => rfl
+  | .conv c :: ps, a :: as => by
+    simp only [fits, kindFits, List.map_cons, convArg_isSome]; rw [fits_eq_kindFits ps as]
+
+/-- the kinds of arguments a code's format expects are met -/
+def codeFits (code : Nat) (ks : List Kind) : Bool := kindFits (parseFmt (formatOf code)) ks
+
+theorem fits_of_codeFits (code : Nat) (as : List Arg) (h : codeFits code (as.map Arg.kind) = true) :
+    fits (parseFmt (formatOf code)) as = true := by
+  rw [fits_eq_kindFits]; exact h
+
 /-! ### `ERRORset_warning` -/
 
 /-- what one `ERRORset_warning` call does to entry `j`, as a function of the old value -/
